@@ -312,7 +312,7 @@ def gen_op(rng, st, dyadic, quick):
 
 def gen_op_(rng, st, dyadic, quick):
     n = st['bins']
-    cap = 64 if quick else 160
+    cap = 64 if quick else 100
     names = ['Adjust', 'Update', 'LoadFn', 'Change', 'Add', 'Backup', 'Revert', 'Reset', 'LoadHist', 'SetAdaptive', 'Moments']
     p = np.array([0.22, 0.14, 0.14, 0.14, 0.09, 0.05, 0.06, 0.03, 0.05, 0.03, 0.05])
     k = str(rng.choice(names, p=p / p.sum()))
@@ -630,7 +630,7 @@ def explore(ctx, seqs, label):
                 continue
             terms.append(step_term(pre, op, post, ret, err, extra))
             where.append((si, ti))
-    res = ctx.coq_eval('steps_' + label, HEADER, terms)
+    res = ctx.coq_eval('steps_' + label, HEADER, terms, shard=max(4, min(60, -(-len(terms) // 32))), timeout=1500)
     ties = set()
     for (si, ti), r in zip(where, res):
         cfg, trace = seqs[si]
@@ -653,6 +653,8 @@ def run_eligible(trace):
             return False
         if any(x != 0 and abs(x - 1) < 1e-6 for x in pre['psd'] + post['psd']):
             return False
+        if op['op'] == 'LoadHist' and any(abs(x - b) <= 1e-9 * abs(b) for x in op['data'] for b in pre['bounds']):
+            return False        # a sample on a (rounded) class boundary is counted on the other side by exact boundaries
         for st in (pre, post):
             if op['op'] == 'Adjust' and st['max'] != 10 * st['min'] and abs(st['max'] - 10 * st['min']) <= 1e-9 * st['max']:
                 return False
@@ -704,7 +706,7 @@ def run(ctx):
     corpus = []
     for cfg, ops in corpus_sequences():
         corpus.append((cfg, run_sequence(cfg, ops)))
-    nseq, length = (36, 40) if quick else (150, 400)
+    nseq, length = (36, 40) if quick else (40, 400)
     seqs = list(corpus)
     for i in range(nseq):
         L = int(ctx.rng.integers(3, length + 1)) if not quick else int(ctx.rng.choice([6, 12, 24, 40]))
@@ -751,7 +753,7 @@ def run(ctx):
         'the model executes ONE operation from the exact binary64 state the implementation was in (never iterated over a whole run, except for the constructor and for sequences of <= 8 operations on dyadic configurations); steps whose branch condition PSDbounds[-1] > 10*PSDbounds[0] is within tolerance of a tie are counted as indeterminate, not compared',
         'grids have 0 <= min < max (guards of the theorems): negative radii are outside the domain; arguments of changeSizeClasses satisfy 0 <= cMin < max(10 cMin, cMax) and bins > 0; UpdatePBMEuler / LoadDistributionFunction receive arrays of the current length, LoadDistributionFunction non-negative values',
         'setBinConstraints after construction, setPSDtoRecordedTime and Normalize* are not among the modelled operations',
-        'the hand-written model coq/C08/Model.v is tied to the code only through this correspondence']
+        'the hand-written model coq/C08/Model.v is tied to the code only through this correspondence; the theorems are about its real-number instance, the execution uses its exact-rational instance (the scalar operations of the two instances are proved to commute with Q2R in coq/Common/Ops.v; this is not lifted to the model functions by a theorem)']
     ctx.cov['trusted_base'] += ['Coq 8.16.1 kernel and vm_compute', 'hand-written model coq/C08/Model.v (uses coq/C07/Model.v momentFromN) + correspondence harness harness/c08.py',
                                 'float -> Q transport (float.as_integer_ratio) and output parser in harness/common.py',
                                 'hand models of numpy linspace, histogram, amax, boolean-mask selection, minimum/maximum.outer + clip + matmul']
